@@ -38,8 +38,8 @@ func vhBuildNoRowid() *vhWDB {
 	f := d.f
 	troot, iroot := f.AddPage(), f.AddPage()
 	f.Master([]sdb.VerifMasterRow{
-		{Typ: "table", Name: "w", Tbl: "w", Root: troot, SQL: "CREATE TABLE w (a, b, c, PRIMARY KEY (b DESC)) WITHOUT ROWID"},
-		{Typ: "index", Name: "wi", Tbl: "w", Root: iroot, SQL: "CREATE INDEX wi ON w (c)"},
+		{Typ: "table", Name: "w", Tbl: "w", Root: troot, SQL: "CREATE TABLE w (a, b, c, PRIMARY KEY (B DESC)) WITHOUT ROWID"}, // identifiers are case-insensitive
+		{Typ: "index", Name: "wi", Tbl: "w", Root: iroot, SQL: "CREATE INDEX wi ON W (C)"},
 	})
 	for i := 0; i < 3; i++ {
 		d.rows = append(d.rows, vhWRow{sdb.VerifInt64(), sdb.VerifInt64(), sdb.VerifInt64()})
